@@ -154,6 +154,31 @@ var templates = []template{
 	{"discovery-read", func(t *rapid.T, e *env, p *world.Peer) model.DatagramType {
 		return p.Msg(model.CmdClassifierTypeRead, p.NM(), world.LocalNM(), false, nil, model.CmdType{NodeManagementDetailedDiscoveryData: &model.NodeManagementDetailedDiscoveryDataType{}})
 	}},
+	{"discovery-read-filtered", func(t *rapid.T, e *env, p *world.Peer) model.DatagramType {
+		// a restricted read: partial filter with an entity / feature selector and / or elements
+		flt := model.NewFilterTypePartial()
+		sel := &model.NodeManagementDetailedDiscoveryDataSelectorsType{}
+		switch rapid.IntRange(0, 3).Draw(t, "selectorKind") {
+		case 0:
+			addr := rapid.SampledFrom([][]model.AddressEntityType{{0}, {1}, {2}, {1, 1}, {7}}).Draw(t, "entity")
+			sel.EntityInformation = &model.NetworkManagementEntityDescriptionListDataSelectorsType{EntityAddress: &model.EntityAddressType{Entity: addr}}
+			if rapid.Bool().Draw(t, "withDevice") {
+				sel.EntityInformation.EntityAddress.Device = world.LocalNM().Device
+			}
+		case 1:
+			sel.EntityInformation = &model.NetworkManagementEntityDescriptionListDataSelectorsType{EntityType: util.Ptr(rapid.SampledFrom([]model.EntityTypeType{model.EntityTypeTypeDeviceInformation, model.EntityTypeTypeCEM, model.EntityTypeTypeEVSE, model.EntityTypeTypeEV, model.EntityTypeTypeHeatPumpAppliance}).Draw(t, "entityType"))}
+		case 2:
+			sel.FeatureInformation = &model.NetworkManagementFeatureDescriptionListDataSelectorsType{FeatureAddress: e.meas.Address()}
+		default:
+			sel.DeviceInformation = &model.NetworkManagementDeviceDescriptionListDataSelectorsType{}
+		}
+		flt.NodeManagementDetailedDiscoveryDataSelectors = sel
+		if rapid.Bool().Draw(t, "withElements") {
+			flt.NodeManagementDetailedDiscoveryDataElements = &model.NodeManagementDetailedDiscoveryDataElementsType{EntityInformation: &model.NodeManagementDetailedDiscoveryEntityInformationElementsType{}}
+		}
+		return p.Msg(model.CmdClassifierTypeRead, p.NM(), world.LocalNM(), false, nil,
+			model.CmdType{Function: util.Ptr(model.FunctionTypeNodeManagementDetailedDiscoveryData), Filter: []model.FilterType{*flt}, NodeManagementDetailedDiscoveryData: &model.NodeManagementDetailedDiscoveryDataType{}})
+	}},
 	{"usecase-reply", func(t *rapid.T, e *env, p *world.Peer) model.DatagramType {
 		data := gen.Ptr(t, reflect.TypeOf(model.NodeManagementUseCaseDataType{}), gen.Opt{Dense: true}, "usecase").Interface().(*model.NodeManagementUseCaseDataType)
 		return p.Msg(model.CmdClassifierTypeReply, p.NM(), world.LocalNM(), false, p.DiscoveryRef, model.CmdType{NodeManagementUseCaseData: data})
